@@ -6,6 +6,7 @@ import RactorModel.Lemmas.FactoryStop
 import RactorModel.Lemmas.FactoryActors
 import RactorModel.Lemmas.FactoryNoPanic
 import RactorModel.Lemmas.FactoryNoDrop
+import RactorModel.Lemmas.FactoryPort
 
 /-!
 # C13 — Factory: every job meets exactly one fate, never runs twice
@@ -485,6 +486,103 @@ example : handledOf ((init shrinkDrainCase).runSteps (shrinkDrainSteps.take 6)) 
 example : handledOf ((init shrinkDrainCase).runSteps shrinkDrainSteps) = [5, 7] ∧
     ((init shrinkDrainCase).runSteps shrinkDrainSteps).exited = true := by decide +kernel
 
+/-! ## Round 4, wave 2: the acceptance port over whole runs -/
+
+/-- answers on ports of job `i` in a history: `reply i false` (= `None`, accepted), `reply i true` (= `Some(job)`, handed
+back), `portClosed i` (the port dropped unanswered together with the exiting factory's mailbox) -/
+def isAnswerEv (i : Nat) : Ev → Bool
+  | .reply k _ => k == i
+  | .portClosed k => k == i
+  | _ => false
+
+/-- dispatches of job `i` that carried an acceptance port -/
+def isPortDispatchEv (i : Nat) : Ev → Bool
+  | .dispatched k _ true => k == i
+  | _ => false
+
+theorem countP_ans (i : Nat) (log : List Ev) : (portsOf log).countP (isAns i) = log.countP (isAnswerEv i) := by
+  induction log with
+  | nil => rfl
+  | cons ev l ih =>
+    have e : portsOf (ev :: l) = portsOf [ev] ++ portsOf l := portsOf_append [ev] l
+    rw [e, List.countP_append, ih, List.countP_cons]
+    cases ev with
+    | dispatched a b c => cases c <;> simp [portsOf, portEv, isAns, isAnswerEv]
+    | reply k b => simp [portsOf, portEv, isAns, isAnswerEv]; omega
+    | portClosed k => simp [portsOf, portEv, isAns, isAnswerEv]; omega
+    | _ => simp [portsOf, portEv, isAns, isAnswerEv]
+
+theorem countP_ask (i : Nat) (log : List Ev) : (portsOf log).countP (isAsk i) = log.countP (isPortDispatchEv i) := by
+  induction log with
+  | nil => rfl
+  | cons ev l ih =>
+    have e : portsOf (ev :: l) = portsOf [ev] ++ portsOf l := portsOf_append [ev] l
+    rw [e, List.countP_append, ih, List.countP_cons]
+    cases ev with
+    | dispatched a b c => cases c <;> simp [portsOf, portEv, isAsk, isPortDispatchEv] <;> omega
+    | _ => simp [portsOf, portEv, isAsk, isPortDispatchEv]
+
+/-- (acceptance port, conservation over runs) For every case, EVERY op sequence and schedule and every job id `i`: the
+answers given so far on ports of `i` plus the port-carrying dispatches of `i` still unhandled in the factory's mailbox are
+exactly the port-carrying dispatches of `i`. No port is answered that was not handed in, none is answered twice, none is
+forgotten once its dispatch has been handled. -/
+theorem acceptance_port_conservation (c : CaseCfg) (steps : List Step) (i : Nat) :
+    ((init c).runSteps steps).env.log.countP (isAnswerEv i) + pendingPorts i ((init c).runSteps steps).inbox
+      = ((init c).runSteps steps).env.log.countP (isPortDispatchEv i) := by
+  rw [← countP_ans, ← countP_ask]
+  exact port_conservation_run c steps i
+
+/-- (answered at most once, never both ways) If job id `i` was dispatched with a port at most once, then over the whole
+run its port gets at most one answer: the history cannot contain both `None` and `Some(job)` for it, nor the same answer
+twice, nor an answer and a closed port. -/
+theorem acceptance_port_answered_at_most_once (c : CaseCfg) (steps : List Step) (i : Nat)
+    (h1 : ((init c).runSteps steps).env.log.countP (isPortDispatchEv i) ≤ 1) :
+    ((init c).runSteps steps).env.log.countP (isAnswerEv i) ≤ 1 := by
+  have := acceptance_port_conservation c steps i
+  omega
+
+theorem acceptance_port_never_both (c : CaseCfg) (steps : List Step) (i : Nat)
+    (h1 : ((init c).runSteps steps).env.log.countP (isPortDispatchEv i) ≤ 1) :
+    ¬ (Ev.reply i false ∈ ((init c).runSteps steps).env.log ∧ Ev.reply i true ∈ ((init c).runSteps steps).env.log) := by
+  intro ⟨ha, hb⟩
+  have h2 := acceptance_port_answered_at_most_once c steps i h1
+  generalize ((init c).runSteps steps).env.log = log at ha hb h2
+  obtain ⟨s, t, rfl⟩ := List.append_of_mem ha
+  have hb' : Ev.reply i true ∈ s ∨ Ev.reply i true ∈ t := by
+    rcases List.mem_append.mp hb with h | h
+    · exact Or.inl h
+    · rcases List.mem_cons.mp h with h | h
+      · cases h
+      · exact Or.inr h
+  have e1 : isAnswerEv i (Ev.reply i false) = true := by simp [isAnswerEv]
+  have e2 : isAnswerEv i (Ev.reply i true) = true := by simp [isAnswerEv]
+  rw [List.countP_append, List.countP_cons, e1] at h2
+  simp only [if_true] at h2
+  rcases hb' with h | h
+  · have := List.countP_pos_iff.mpr ⟨_, h, e2⟩; omega
+  · have := List.countP_pos_iff.mpr ⟨_, h, e2⟩; omega
+
+/-- (answered exactly once) A port-carrying dispatch of `i` that is no longer in the factory's mailbox has been answered
+exactly once — accepted, handed back, or (only when the factory actor exited with the message unread) closed. In particular
+at every quiescent point of a running factory (`inbox = []`) every port handed in so far has its one answer. -/
+theorem acceptance_port_answered_exactly_once (c : CaseCfg) (steps : List Step) (i : Nat)
+    (h1 : ((init c).runSteps steps).env.log.countP (isPortDispatchEv i) = 1)
+    (hp : pendingPorts i ((init c).runSteps steps).inbox = 0) :
+    ((init c).runSteps steps).env.log.countP (isAnswerEv i) = 1 := by
+  have := acceptance_port_conservation c steps i
+  omega
+
+/-- (no unrequested answer) a job dispatched without a port never gets an answer -/
+theorem acceptance_port_no_unrequested_answer (c : CaseCfg) (steps : List Step) (i : Nat)
+    (h0 : ((init c).runSteps steps).env.log.countP (isPortDispatchEv i) = 0) (b : Bool) :
+    Ev.reply i b ∉ ((init c).runSteps steps).env.log := by
+  intro hm
+  have := acceptance_port_conservation c steps i
+  have hpos : 0 < ((init c).runSteps steps).env.log.countP (isAnswerEv i) :=
+    List.countP_pos_iff.mpr ⟨_, hm, by simp [isAnswerEv]⟩
+  omega
+
+
 end C13
 
 #print axioms C13.reject_log
@@ -515,3 +613,8 @@ end C13
 #print axioms C13.drained_means_every_worker_free
 #print axioms C13.stop_signal_only_over_idle_pool
 #print axioms C13.post_stop_abandons_nothing
+#print axioms C13.acceptance_port_conservation
+#print axioms C13.acceptance_port_answered_at_most_once
+#print axioms C13.acceptance_port_never_both
+#print axioms C13.acceptance_port_answered_exactly_once
+#print axioms C13.acceptance_port_no_unrequested_answer
